@@ -3080,6 +3080,7 @@ rfbProcessClientNormalMessage(rfbClientPtr cl)
                     clp->requestedDesktopSizeChange = rfbExtDesktopSize_OtherClientRequestedChange;
                 UNLOCK(clp->updateMutex);
             }
+            rfbReleaseClientIterator(iterator);
         }
         else
         {
